@@ -83,6 +83,9 @@ class ShapelyPolygon(Domain):
             if len(points) == n:
                 break
         points = self._check_enough_points_sampled(n, points, big_t, device)
+        # the points were created triangle by triangle, shuffle them so that
+        # every single row is uniformly distributed in the whole polygon
+        points = points[torch.randperm(len(points), device=device)]
         return Points(points, self.space)
 
     def _sample_in_triangulation(self, t, n, device):
